@@ -252,6 +252,10 @@ func (c *Ctx) derivedFrom(v, src ssa.Value, depth int) bool {
 		}
 	case *ssa.Extract:
 		return c.derivedFrom(x.Tuple, src, depth-1)
+	case *ssa.ChangeType:
+		return c.derivedFrom(x.X, src, depth-1)
+	case *ssa.Convert:
+		return c.derivedFrom(x.X, src, depth-1)
 	case *ssa.MakeInterface:
 		return c.derivedFrom(x.X, src, depth-1)
 	case *ssa.ChangeInterface:
